@@ -414,7 +414,7 @@ int disasm_6809(
               int16_t offset = (READ_RAM(address + 1) << 8) | READ_RAM(address + 2);
 
               snprintf(instruction, length, "%s 0x%04x (%d)", table_6809[n].instr, (address + 3 + offset) & 0xffff, offset);
-              return 2;
+              return 3;
             }
 
             break;
